@@ -90,7 +90,7 @@ def config_variants(obs, work, jobs, seed, variants=CONFIG_VARIANTS):
 def guided(obs, work, ops, tier, seed):
     """Coverage-guided stage (clang libFuzzer + ASan/UBSan, mon/fuzz_field.c): the same model oracle, but the inputs are found
     from the comparisons the library executes - values and contents outside every enumerated class."""
-    runs = 150000 if tier == 'quick' else 12000000
+    runs = 300000 if tier == 'quick' else 12000000
     n = vfuzz.stage(obs, work, vfuzz.field_target(work), 'field-' + ops.replace(' ', '+'), dict(VP_FUZZ_OPS=ops), runs, 8 if tier == 'quick' else 16, seed,
                     seeds=vfuzz.field_seeds(ops))
     return ' Coverage-guided stage (libFuzzer, operations {%s}): %d executions.' % (ops, n or 0)
